@@ -42,8 +42,14 @@ func setStorageParams(env world.Env, f func(p *storagetypes.Params)) {
 }
 
 // (1) challenge / proof agreement
-func c02ChallengeCase(size int, chunk int64) mc.Case {
+func c02ChallengeCase(size int, chunk int64) mc.Case { return c02ChallengeCasePT(size, chunk, 0) }
+
+// pt: the (unvalidated, client-supplied) proof type the file is posted with
+func c02ChallengeCasePT(size int, chunk int64, pt int64) mc.Case {
 	c := mc.Case{Desc: fmt.Sprintf("challenge|size=%d|chunk=%d", size, chunk)}
+	if pt != 0 {
+		c.Desc += fmt.Sprintf("|proofType=%d", pt)
+	}
 	data := seqBytes(size, byte(size*31+int(chunk)))
 	f := mkFile(data, chunk)
 	c.Prep = func(env world.Env) {
@@ -55,7 +61,7 @@ func c02ChallengeCase(size int, chunk int64) mc.Case {
 			panic(fmt.Sprintf("harness tree differs from utils.BuildTree for size %d chunk %d (%v)", size, chunk, err))
 		}
 		u := w.A("U").Bech
-		mustOK(env.Deliver(storagetypes.NewMsgPostFile(u, f.merkle, int64(size), 0, 0, 1, "{}")), "PostFile")
+		mustOK(env.Deliver(storagetypes.NewMsgPostFile(u, f.merkle, int64(size), 0, pt, 1, "{}")), "PostFile")
 	}
 	for g := 0; g < 64; g++ {
 		c.Subs = append(c.Subs, fmt.Sprintf("gas=%d", g))
@@ -435,6 +441,7 @@ func c02Enum(thorough bool) mc.Enum {
 		}
 	}
 	e.Cases = append(e.Cases, c02ChallengeCase(40, 1), c02ChallengeCase(130, 1)) // challenged indices with two and three digits
+	e.Cases = append(e.Cases, c02ChallengeCasePT(9, 4, 1), c02ChallengeCasePT(12, 3, 7), c02ChallengeCasePT(5, 1, -1)) // files posted with other proof types
 	Is := []int64{2, 3, 4}
 	windows := 3
 	if thorough {
